@@ -21,7 +21,7 @@ for d in sorted(glob.glob(f"{ROOT}/seeded/*")):
     sh(f"git -C /repo apply {d}/patch.diff")
     det={}
     try:
-        for c in CHECKS[prop]:
+        for c in CHECKS[prop] + [c for c in meta.get("also_check", []) if c not in CHECKS[prop]]:
             r=sh(f"cd {ROOT} && ./check {c}")
             lines=[l for l in r.stdout.splitlines() if l.strip().startswith("oracle=")]
             det[c]={"exit":r.returncode,"violations":sorted(set(l.strip() for l in lines))[:6]}
